@@ -98,6 +98,7 @@ const DET: &[&str] = &[
     "det:unmapped-with-bases-only",
     "det:missing-name-unpaired",
     "det:placed-unmapped-no-bases",
+    "det:pair-plus-supplementary-in-slice",
 ];
 
 fn det_stream(name: &str) -> (Stream, Option<(usize, usize)>) {
@@ -147,6 +148,12 @@ fn det_stream(name: &str) -> (Stream, Option<(usize, usize)>) {
             r.name = None;
             vec![r, rd("r1", 0, Some(0), Some(2), &[('M', 4)], b"CGTA", &q(4))]
         }
+        // beyond the generator's "exactly two primary segments": what every bwa-mem output has
+        "det:pair-plus-supplementary-in-slice" => vec![
+            rd("p0", F_PAIRED | F_FIRST, Some(0), Some(1), &[('M', 8)], b"ACGTACGT", &q(8)),
+            rd("p0", F_PAIRED | F_LAST | 16, Some(0), Some(21), &[('M', 8)], b"CGGATCAG", &q(8)),
+            rd("p0", F_PAIRED | F_FIRST | gencram::F_SUPPLEMENTARY, Some(0), Some(40), &[('H', 8), ('M', 6)], b"GACTAG", &q(6)),
+        ],
         "det:placed-unmapped-no-bases" => vec![rd("r0", F_UNMAPPED, Some(0), Some(24), &[], b"", b"")],
         _ => panic!("unknown deterministic case {name}"),
     };
@@ -154,6 +161,14 @@ fn det_stream(name: &str) -> (Stream, Option<(usize, usize)>) {
         r.template = if r.name.as_deref() == Some(b"p0") { 1000 } else { i };
     }
     gencram::finalize_mates(&mut reads);
+    if name == "det:pair-plus-supplementary-in-slice" {
+        // the supplementary alignment of the first segment points at the primary of the last one
+        let last = reads[1].clone();
+        let r = &mut reads[2];
+        r.mate_ref = last.ref_id;
+        r.mate_pos = last.pos;
+        r.flags |= gencram::F_MATE_REVERSE;
+    }
     (Stream { refs, read_groups: vec!["rg0".into()], reads }, layout)
 }
 
@@ -161,6 +176,22 @@ fn det_stream(name: &str) -> (Stream, Option<(usize, usize)>) {
 
 fn gen_cases(ctx: &Ctx) -> Vec<Case> {
     let mut cases = Vec::new();
+    if ctx.param("tiny").is_some() {
+        // Miri-sized workload: six tiny files over the gzip / bzip2 / lzma / rANS / uncompressed paths
+        for (k, (class, emap)) in [("det:two-mapped-plain", "default"), ("det:pair-sorted-in-slice", "none"), ("rand", "qs=rans4x8:1"),
+                                   ("rand", "nx16:0x04"), ("rand", "bzip2:1"), ("rand", "lzma:1")].into_iter().enumerate() {
+            cases.push(Case {
+                class: class.into(),
+                gseed: 0x7111 + k as u64,
+                opts: GenOpts { n_templates: 3, n_refs: 1, ref_len: (40, 60), max_read_len: 12, max_skip: 5, ..GenOpts::default() },
+                preserve_names: k % 2 == 0,
+                deltas: k % 3 != 0,
+                emap: emap.into(),
+                layout: if class == "rand" { Some((2, 2)) } else { None },
+            });
+        }
+        return cases;
+    }
     for name in DET {
         let (_, layout) = det_stream(name);
         cases.push(Case {
@@ -634,6 +665,10 @@ fn classed(c: &Case, s: &Stream, sig: &str) -> String {
     if nobases && unreadable {
         return format!("roundtrip:stream-has-unmapped-record-without-bases:{}", &sig["roundtrip:".len()..]);
     }
+    let supp = s.reads.iter().any(|r| r.is_paired() && r.flags & gencram::F_SUPPLEMENTARY != 0);
+    if supp && ["roundtrip:mate-reference:", "roundtrip:mate-position:", "roundtrip:template-length:", "roundtrip:flags:"].iter().any(|p| sig.starts_with(p)) {
+        return "roundtrip:stream-has-supplementary-segment-of-a-pair:mate-fields-differ".into();
+    }
     if zero_span && (unreadable || sig.starts_with("roundtrip:reference:")) {
         return format!("roundtrip:stream-has-placed-unmapped-record-without-bases:{}", &sig["roundtrip:".len()..]);
     }
@@ -822,7 +857,7 @@ fn main() {
     let cases = gen_cases(&ctx);
     let f = |i: u64| -> CaseOut { run_case(&ctx, i, &cases[i as usize]) };
     run_cases(&ctx, &mut rep, cases.len() as u64, 120.0, &f, &|i| case_json(&cases[i as usize]));
-    if ctx.replay.is_none() {
+    if ctx.replay.is_none() && ctx.param("tiny").is_none() && ctx.param("cases").is_none() {
         let counters = rep.counters.clone();
         let g = |k: &str| counters.get(k).copied().unwrap_or(0);
         rep.floor("files_written", g("files_written"), (cases.len() as u64) * 6 / 10);
